@@ -1061,9 +1061,13 @@ impl OutstationSession {
                 Some(LastValidRequest::new(seq, hash, response, None))
             }
             FragmentType::RepeatNonRead(hash, last_response) => {
-                // If we have a pending select, update the sequence number
-                if let Some(select) = &mut self.state.select {
-                    select.update_frame_id(info.id);
+                // If the pending select itself was retransmitted, re-base its frame id so that the
+                // repeat does not break the SELECT/OPERATE pair. The repeat of any other request
+                // means that request was received between the two, which must break the pair.
+                if request.header.function == FunctionCode::Select {
+                    if let Some(select) = &mut self.state.select {
+                        select.update_frame_id(info.id);
+                    }
                 }
 
                 // per the spec, we just echo the last response
